@@ -133,6 +133,9 @@ def run_witness(w):
 
 def replay_case(path):
     v = json.load(open(path))
+    if "like_case" in v:
+        import likestream
+        return likestream.replay(v)
     c = v.get("case") or v.get("first_disagreement")
     if not c or "pattern" not in c:
         print("replay file holds no triple")
